@@ -625,6 +625,76 @@ def run(only=None):
             s.merge(acc)
         s.done()
 
+    if want("call_histories"):
+        # histories of two calls: a writer / reader result must not depend on which other number was written or read before
+        # (memoised writers keyed without the precision, shared scratch buffers, ...)
+        import os as _os
+        import pickle as _pickle
+
+        ops = []
+        for v in (0, 1, 63, 64, 127, 128, 300, 16383, 16384, 2 ** 21, 2 ** 28 - 1):
+            ops.append((f"write_uintvar({v})", lambda v=v: MBXML.write_uintvar(v)))
+            ops.append((f"write_sintvar({v})", lambda v=v: MBXML.write_sintvar(v)))
+            ops.append((f"write_sintvar({-v})", lambda v=v: MBXML.write_sintvar(-v)))
+        for v in (0.5, 1 / 128, 1 / 16384, 12.25, 64.5, 127.0078125, 300.0):
+            for p_ in (1, 2, 3):
+                ops.append((f"write_ufloatvar({v},{p_})", lambda v=v, p_=p_: MBXML.write_ufloatvar(v, p_)))
+                ops.append((f"write_sfloatvar({-v},{p_})", lambda v=v, p_=p_: MBXML.write_sfloatvar(-v, p_)))
+        for v in (0.0, 12.345, 45.0, 89.999999, 90.0):
+            ops.append((f"write_latitude({v})", lambda v=v: MBXML.write_latitude(v)))
+            ops.append((f"write_longitude({v})", lambda v=v: MBXML.write_longitude(v)))
+        for hx in ("00", "7f", "8100", "8200", "ff7f", "c07f", "817f"):
+            ops.append((f"read_uintvar({hx})", lambda hx=hx: MBXML.read_uintvar(bytes.fromhex(hx) + b"\xff", 0)))
+            ops.append((f"read_sintvar({hx})", lambda hx=hx: MBXML.read_sintvar(bytes.fromhex(hx) + b"\xff", 0)))
+            ops.append((f"read_ufloatvar({hx}40)", lambda hx=hx: MBXML.read_ufloatvar(bytes.fromhex(hx) + b"\x40\xff", 0)))
+
+        def run_op(i):
+            try:
+                return repr(ops[i][1]())
+            except Exception as e:  # noqa: BLE001
+                return "raises:" + type(e).__name__
+
+        def in_child(fn):
+            r, w = _os.pipe()
+            pid = _os.fork()
+            if pid == 0:
+                try:
+                    _os.close(r)
+                    data = _pickle.dumps(fn())
+                except BaseException as e:  # noqa: BLE001
+                    data = _pickle.dumps("CHILD-CRASH:" + repr(e))
+                with _os.fdopen(w, "wb") as f:
+                    f.write(data)
+                _os._exit(0)
+            _os.close(w)
+            with _os.fdopen(r, "rb") as f:
+                data = f.read()
+            _os.waitpid(pid, 0)
+            return _pickle.loads(data)
+
+        s = rep.sub("call_histories", f"{len(ops)} writer / reader calls (same value at different precisions, values sharing septets, reads of shared prefixes): "
+                                      "each alone in a forked child = reference; then for every first call i (own forked child) every call j after it must return its reference")
+        alone = [in_child(lambda i=i: run_op(i)) for i in range(len(ops))]
+
+        def after(i):
+            out = [run_op(i)]
+            out += [run_op(j) for j in range(len(ops))]
+            out += [run_op(j) for j in range(len(ops) - 1, -1, -1)]
+            return out
+
+        for i, res in enumerate(par.pmap(lambda i: in_child(lambda: after(i)), range(len(ops)), nw)):
+            if isinstance(res, str):
+                s.violation("child_crashed", {"first": ops[i][0], "detail": res})
+                continue
+            seq = [i] + list(range(len(ops))) + list(range(len(ops) - 1, -1, -1))
+            for pos, (j, got) in enumerate(zip(seq, res)):
+                if got != alone[j]:
+                    s.violation("result_depends_on_earlier_calls", {"first": ops[i][0], "call": ops[j][0], "alone": alone[j], "after_history": got, "position": pos},
+                                "a writer / reader returns another result after other numbers were written / read in the same process")
+                    break
+                s.case(nontrivial=True, calls=1, outcome=alone[j][:12], sample={"first": ops[i][0], "then": ops[j][0]} if (i == 3 and pos == 5) else None)
+        s.done()
+
     rep.bounds = {
         "unsigned": f"dense 0..{dense}; structured two-free-septet family over 0..2^32-1 ({struct_size(0x0F)} vectors); boundaries",
         "signed": f"dense +-{dense}; structured family over magnitudes 0..2^31-1, both signs; boundaries",
